@@ -262,14 +262,7 @@ def r2(ctx, rep):
 
 def r3(ctx, rep):
     m = ctx.m
-    R3 = rep.rule('C08.R3', 'finish() ordering and the finished/not-finished guards; _complete_frames folded')
-    fin = m.func(MODELS, 'BaseModel.finish')
-    seq = [astq.u(s) for s in astq.stmts(fin)]
-    ok = seq == ['self._check_not_finished()', 'self._complete_frames()', 'self.R.enforce()', 'self._finished = True', 'return self']
-    rep.instance(R3, ok=ok, sample=dict(sequence=seq), nontrivial='finish')
-    rep.consult(m.loc(MODELS, fin) + ' BaseModel.finish')
-    if not ok:
-        rep.finding(R3, 'C08.R3/finish', m.loc(MODELS, fin), 'BaseModel.finish', f'is not: check not finished, complete frames, enforce access relation, mark finished ({seq})')
+    R3 = rep.rule('C08.R3', 'the finished/not-finished guards; Model.finish() of every logic folded end to end (completion, frame condition, identity)')
     cd = m.clsdef(ClassRef(MODELS, 'BaseModel'))
     n = 0
     for st in cd.body:
@@ -300,43 +293,9 @@ def r3(ctx, rep):
         rep.instance(R3, ok=ok, nontrivial=chk)
         if not ok:
             rep.finding(R3, f'C08.R3/{chk}', m.loc(MODELS, fn), f'BaseModel.{chk}', 'no longer raises IllegalStateError in the wrong state')
-    # _complete_frames folded
-    cf = m.func(MODELS, 'BaseModel._complete_frames')
-    rep.consult(m.loc(MODELS, cf) + ' BaseModel._complete_frames')
-    it = Interp({}, where='BaseModel._complete_frames')
-
-    def mkframe():
-        return Obj('frame', atomics={}, opaques={}, predicates=collections.defaultdict(dict))
-    frames_ = collections.defaultdict(mkframe)
-    frames_[0].atomics['p'] = 'T'
-    frames_[1].opaques['o'] = 'F'
-    frames_[1].predicates['G']
-    R = collections.defaultdict(set)
-    R[0].add(2)
-    R[2]
-    sent = Obj('sentence', atomics={'q'}, predicates={'H'})
-    mdl = Obj('model', frames=frames_, R=R, sentences={sent}, _is_frame_complete=False, Meta=Obj('Meta', unassigned_value='UN'))
-    mdl._check_not_finished = lambda: None
-    r = it.safe(cf, [mdl])
-    probs = []
-    if isinstance(r, Raises):
-        probs.append(f'raises {r.text}')
-    else:
-        if set(frames_) != {0, 1, 2} or set(R) != {0, 1, 2}:
-            probs.append(f'frames {sorted(frames_)} and R {sorted(R)} are not aligned on worlds 0,1,2')
-        for w, fr in frames_.items():
-            if set(fr.atomics) != {'p', 'q'} or set(fr.opaques) != {'o'}:
-                probs.append(f'frame {w}: atomics {sorted(fr.atomics)} opaques {sorted(fr.opaques)} (expected p,q / o everywhere)')
-            if not {'G', 'H'} <= set(fr.predicates):
-                probs.append(f'frame {w}: predicates {sorted(fr.predicates)} lack G/H')
-        if frames_[0].atomics.get('p') != 'T' or frames_[1].atomics.get('p') != 'UN' or frames_[2].atomics.get('q') != 'UN' or frames_[0].opaques.get('o') != 'UN':
-            probs.append('missing values are not filled with the unassigned value (or assigned ones were overwritten)')
-        if mdl._is_frame_complete is not True:
-            probs.append('_is_frame_complete not set')
-    rep.instance(R3, ok=not probs, nontrivial='_complete_frames')
-    for p in probs:
-        rep.finding(R3, f'C08.R3/_complete_frames/{p[:40]}', m.loc(MODELS, cf), 'BaseModel._complete_frames', p)
     cpl_finish_fold(ctx, rep, R3)
+    n = common.finish_folds(ctx, rep, R3, 'C08.R3')
+    rep.floor('C08.R3', 'finish pre-states', n, 500)
 
 
 def cpl_finish_fold(ctx, rep, R3):
